@@ -1022,6 +1022,25 @@ fn observe(r: &RunOut) -> Vec<u64> {
         enc_ostr(&mut o, f["endpoint"].as_str());
         enc_ostr(&mut o, f["model"].as_str());
     }
+    // 5. the order of the milestone frames of the session stream
+    let mut ms: Vec<u64> = vec![];
+    for f in &r.disk_session {
+        match f["type"].as_str().unwrap_or("") {
+            "openresponses_request" => ms.push(0),
+            "openresponses_request_started" => ms.push(1),
+            "openresponses_response_headers" => ms.push(2),
+            "openresponses_response_first_byte" => ms.push(3),
+            // transport / HTTP error frames carry neither the raw SSE text nor parsed data
+            "provider_event" if f["raw"].is_null() && f["data"].is_null() && f["event_name"].is_null() => ms.push(4),
+            // an invalid request: the raw field holds the request body, before any request frame
+            "provider_event" if f["data"].is_null() && f["event_name"].is_null() && !ms.contains(&1) => ms.push(7),
+            "tool_started" => ms.push(5),
+            "session_ended" => ms.push(6),
+            _ => {}
+        }
+    }
+    o.push(ms.len() as u64);
+    o.extend(ms);
     o
 }
 
